@@ -266,6 +266,12 @@ func genC04(seed uint64, run int, tier string) *Case {
 		c.Mode, c.Tier, c.Seed, c.Run = "C04", tier, seed, run
 		return c
 	}
+	if r0 := newRng(seed, uint64(run)*64+streamC04+32); r0.p(0.12) {
+		// a directed shape again, with this run's own details
+		c := pick(r0, c04Shapes)(newRng(seed, uint64(run)*64+streamC04), tier)
+		c.Mode, c.Tier, c.Seed, c.Run = "C04", tier, seed, run
+		return c
+	}
 	g := &genCtx{r: newRng(seed, uint64(run)*64+streamC04), tier: tier, c: &Case{Mode: "C04", Tier: tier, Seed: seed, Run: run, Shape: "swarm"}, vkind: map[string]int{}}
 	c := g.c
 	c.Knobs.SwitchThr = pick(g.r, []int{13, 77, 77, 256, 256})
@@ -378,7 +384,7 @@ func genC04(seed uint64, run int, tier string) *Case {
 // (values, positions, tape) still come from the seed.
 
 var c04Shapes = []func(r rng, tier string) *Case{
-	shapeWhereSwitch, shapeTickBetweenNow, shapeTZLiteral, shapePatchShared, shapeStallCompile, shapeClockExact, shapeOrder, shapeTypedCallbacks,
+	shapeWhereSwitch, shapeTickBetweenNow, shapeTZLiteral, shapePatchShared, shapeStallCompile, shapeClockExact, shapeOrder, shapeTypedCallbacks, shapePatterns,
 }
 
 func baseShape(r rng, tier, name string, types ...string) *genCtx {
@@ -563,6 +569,36 @@ func shapeTypedCallbacks(r rng, tier string) *Case {
 	for ci := 0; ci < 3; ci++ {
 		var ops []Op
 		for oi := 0; oi < 4; oi++ {
+			ops = append(ops, Op{Kind: "eval", Prog: r.n(len(c.Programs)), Res: []int{0}})
+		}
+		c.Clients = append(c.Clients, ops)
+	}
+	return c
+}
+
+// shapePatterns: functions that could keep process-wide memos (compiled patterns, parsed
+// literals, unit tables): several clients use different patterns/literals through the same
+// functions; in the instrumented build a switch can fall between the steps of such a memo.
+func shapePatterns(r rng, tier string) *Case {
+	g := baseShape(r, tier, "patterns", "Patient")
+	c := g.c
+	c.Knobs.SwitchThr = 256
+	pats := []string{"^[a-z]+$", ".*a.*", "[A-Z].*", "\\\\d+", "(a|b)+", "^x", "e$"}
+	subj := []string{"'alpha'", "'Beta'", "'x1'", "'42'", "'abba'", "Patient.name.given.first()", "Patient.id"}
+	for i := 0; i < 8; i++ {
+		switch r.n(3) {
+		case 0:
+			c.Programs = append(c.Programs, ProgSpec{Src: fmt.Sprintf("%s.matches('%s')", pick(r, subj), pick(r, pats))})
+		case 1:
+			c.Programs = append(c.Programs, ProgSpec{Src: fmt.Sprintf("%s.replaceMatches('%s', '_')", pick(r, subj), pick(r, pats))})
+		default:
+			c.Programs = append(c.Programs, ProgSpec{Src: fmt.Sprintf("Patient.descendants().where($this is string).where($this.matches('%s')).count()", pick(r, pats))})
+		}
+	}
+	c.Programs = append(c.Programs, ProgSpec{Src: "(5 'mg').toQuantity() = (5 'mg')"}, ProgSpec{Src: "@2020-03-07T12:00:00-03:30 + 1 day"}, ProgSpec{Src: "'1.5'.toDecimal() + 2"})
+	for ci := 0; ci < 3; ci++ {
+		var ops []Op
+		for oi := 0; oi < 6; oi++ {
 			ops = append(ops, Op{Kind: "eval", Prog: r.n(len(c.Programs)), Res: []int{0}})
 		}
 		c.Clients = append(c.Clients, ops)
